@@ -247,9 +247,12 @@ class DocTaint:
                         else [n.target]
                     if val is not None and self.is_doc(val):
                         for t in tgts:
-                            for e in ast.walk(t):
-                                if isinstance(e, ast.Name):
-                                    self.doc.add(e.id)
+                            if isinstance(t, ast.Name):
+                                self.doc.add(t.id)
+                            elif isinstance(t, (ast.Tuple, ast.List)):
+                                for e in t.elts:
+                                    if isinstance(e, ast.Name):
+                                        self.doc.add(e.id)
                 elif isinstance(n, (ast.For, ast.comprehension)):
                     it, tgt = n.iter, n.target
                     base = it
